@@ -5,8 +5,10 @@ package c20
 
 import (
 	"fmt"
+	"os"
 	"sort"
 	"strings"
+	"sync"
 
 	"github.com/flosch/pongo2/v6"
 	"github.com/flosch/pongo2/v6/vsched"
@@ -26,7 +28,19 @@ type world struct {
 	version map[string]int
 }
 
-func fileSrc(name string, ver int) string { return fmt.Sprintf("%s-v%d{{ g }}", name, ver) }
+// the text after the if tag is where the sets' different TrimBlocks options show
+func fileSrc(name string, ver int) string {
+	return fmt.Sprintf("%s-v%d{{ g }}{%% if 1 %%}\n{%% endif %%}", name, ver)
+}
+
+// what a template compiled from fileSrc(name, ver) renders in set si (set 2 has TrimBlocks on, set 1 has not)
+func renderOf(name string, ver, si int) string {
+	nl := "\n"
+	if si == 1 {
+		nl = ""
+	}
+	return fmt.Sprintf("%s-v%dG%d%s", name, ver, si+1, nl)
+}
 
 func newWorld(seamed bool) *world {
 	w := &world{version: map[string]int{"/a": 1, "/b": 1, "/c": 1}}
@@ -72,6 +86,10 @@ type model struct {
 }
 
 func (c *HistCase) Exec(t *eng.T) {
+	if os.Getenv("VERIF_RACEPASS") != "" {
+		t.Skip() // sequential histories have nothing to offer to the race detector
+		return
+	}
 	t.Nontrivial()
 	w := newWorld(false)
 	m := &model{version: map[string]int{"/a": 1, "/b": 1, "/c": 1}, failing: map[string]bool{}}
@@ -147,7 +165,7 @@ func (c *HistCase) Exec(t *eng.T) {
 				return
 			}
 			out := px.Exec(tp, nil)
-			wantOut := fmt.Sprintf("%s-v%dG%d", key, want.ver, si+1)
+			wantOut := renderOf(key, want.ver, si)
 			if out.Failed() || out.S != wantOut {
 				fail("wrong-content", "the returned template renders %s, want %q", out, wantOut)
 				return
@@ -307,7 +325,62 @@ func linearizable(progs [][]string, res [][]opResult, fetches map[string]int) (b
 	return ok, ""
 }
 
+// racePass: the thread programs on real goroutines in a race-detector build without the controlled scheduler;
+// every free-running execution must be linearisable as well.
+func (c *ConcCase) racePass(t *eng.T) {
+	t.Nontrivial()
+	for rep := 0; rep < 100; rep++ {
+		w := newWorld(false)
+		results := make([][]opResult, len(c.Progs))
+		var wg sync.WaitGroup
+		start := make(chan struct{})
+		for ti, prog := range c.Progs {
+			wg.Add(1)
+			go func(ti int, prog []string) {
+				defer wg.Done()
+				<-start
+				var rs []opResult
+				for _, op := range prog {
+					switch {
+					case strings.HasPrefix(op, "FC("):
+						tp, err := w.sets[0].FromCache(op[3 : len(op)-1])
+						rs = append(rs, opResult{op: op, tp: tp, err: err != nil})
+					case op == "CC()":
+						w.sets[0].CleanCache()
+						rs = append(rs, opResult{op: op})
+					case strings.HasPrefix(op, "CC("):
+						w.sets[0].CleanCache(op[3 : len(op)-1])
+						rs = append(rs, opResult{op: op})
+					}
+				}
+				results[ti] = rs
+			}(ti, prog)
+		}
+		close(start)
+		wg.Wait()
+		t.AddStates(1)
+		if rep%32 == 0 {
+			t.Heartbeat()
+		}
+		fetches := map[string]int{}
+		for k, n := range w.loaders[0].Gets {
+			if n > 0 {
+				fetches[k] = n
+			}
+		}
+		if ok, _ := linearizable(c.Progs, results, fetches); !ok {
+			t.Fail("racepass-not-linearisable", "free-running repetition %d of %v: results and fetches %v are not explained by any interleaving of the operations", rep, c.Progs, fetches)
+			return
+		}
+	}
+	t.Outcome("race-pass")
+}
+
 func (c *ConcCase) Exec(t *eng.T) {
+	if os.Getenv("VERIF_RACEPASS") != "" {
+		c.racePass(t)
+		return
+	}
 	t.Nontrivial()
 	var lastW *world
 	var results [][]opResult
